@@ -1,5 +1,7 @@
 import QuantemModel.Lemmas.Stretch
 import QuantemModel.Model.Norm
+import Mathlib.Tactic.SplitIfs
+import Mathlib.Tactic.NormNum
 /-!
 Helper lemmas for C20 at ℝ: the carrier's comparisons/clip in Mathlib notation, the interval
 map, min/max limits, and the per-class facts transported from `StretchSpec` to the
@@ -166,37 +168,105 @@ def Admissible : Stretch ℝ → Prop
   | .asinh s => 0 < s.a
   | .sinh s => 0 < s.a
 
-/-! ### generated bodies = closed forms -/
+/-! ### generated bodies = closed forms
+
+`Generated/Stretch.lean` is rewritten from the source on every run, so these proofs must not depend on
+the SHAPE of the generated terms: the carrier operations are rewritten into Mathlib notation, the
+parameter comparisons are split, and commutative-ring normalisation (`ring_nf`, also inside the
+arguments of log/exp/sinh/arsinh) decides.  A behaviour-preserving rewrite of a `__call__` body
+(re-associated / commuted arithmetic, `2x - 1` for `(x - 1/2)·2`, a reciprocal for a division, another
+nesting of the parameter tests) keeps them proving; a changed formula does not. -/
+
+set_option linter.unusedTactic false
+set_option linter.unreachableTactic false
+set_option linter.unnecessarySeqFocus false
+
+/-- carrier operations at ℝ in Mathlib notation -/
+macro "carrier_simp" : tactic => `(tactic|
+  simp only [clip_eq, clip_eq', clip_eq'', NumReal.add_eq, NumReal.mul_eq, NumReal.sub_eq, NumReal.div_eq,
+    NumReal.neg_eq, NumReal.ofRat_eq, NumReal.log_eq, NumReal.exp_eq, NumReal.sinh_eq, NumReal.asinh_eq,
+    NumReal.rpow_eq, NumReal.sqrt_eq, NumReal.max_eq, NumReal.min_eq, NumReal.leb_eq, NumReal.ltb_eq,
+    feq_iff, fne_iff, leb_false_iff, ltb_false_iff, Bool.and_eq_true, Bool.or_eq_true, Bool.not_eq_true',
+    Bool.not_eq_eq_eq_not, Bool.not_true, Bool.not_false, Bool.true_and, Bool.and_true, decide_eq_true_eq,
+    if_true, if_false, Bool.false_eq_true, Bool.ite_eq_true_distrib])
+
+/-- `generated term = closed form`, whatever the shape of the generated term -/
+macro "stretch_tie" : tactic => `(tactic|
+  ((try carrier_simp) <;> (try push_cast) <;> (try split_ifs) <;> (try simp_all) <;> (try ring_nf) <;>
+    (try (field_simp <;> ring_nf))))
 
 theorem linear_call_eq (s : LinearStretch ℝ) (x : ℝ) : s.call x = linearS s.slope s.intercept x := by
   unfold LinearStretch.call linearS
-  by_cases h1 : s.slope = 1 <;> by_cases h2 : s.intercept = 0 <;>
-    simp [feq_iff, fne_iff, clip_eq', h1, h2, mul_comm]
+  stretch_tie
 
 theorem power_call_eq (s : PowerLawStretch ℝ) (x : ℝ) : s.call x = powerS s.power x := by
   unfold PowerLawStretch.call powerS
-  by_cases h : s.power = 1 <;> simp [feq_iff, clip_eq', h]
+  stretch_tie
 
 theorem log_call_eq (s : LogarithmicStretch ℝ) (x : ℝ) : s.call x = logS s.a x := by
   unfold LogarithmicStretch.call logS
-  simp [clip_eq', mul_comm]
+  stretch_tie
 
 theorem invlog_call_eq (s : InverseLogarithmicStretch ℝ) (x : ℝ) : s.call x = invlogS s.a x := by
   unfold InverseLogarithmicStretch.call invlogS
-  simp [clip_eq']
+  stretch_tie
 
 theorem asinh_call_eq (s : InverseHyperbolicSineStretch ℝ) (x : ℝ) : s.call x = asinhS s.a x := by
   unfold InverseHyperbolicSineStretch.call asinhS
-  simp [clip_eq', mul_comm]
+  stretch_tie
 
 theorem sinh_call_eq (s : HyperbolicSineStretch ℝ) (x : ℝ) : s.call x = sinhS s.a x := by
   unfold HyperbolicSineStretch.call sinhS
-  simp only [clip_eq'', NumReal.sub_eq, NumReal.mul_eq, NumReal.div_eq, NumReal.add_eq, NumReal.sinh_eq,
-    NumReal.ofRat_eq]
-  have e : (clip01 x - ((1 / 2 : Rat) : ℝ)) * ((2 : Rat) : ℝ) = 2 * clip01 x - 1 := by
-    push_cast; ring
-  rw [e]
-  push_cast
-  ring_nf
+  stretch_tie
+
+/-! ### the declared inverses and the construction guards, as traced -/
+
+theorem linear_inverse_eq (s : LinearStretch ℝ) : s.inverse = ⟨1 / s.slope, -s.intercept / s.slope⟩ := by
+  unfold LinearStretch.inverse
+  congr 1 <;> stretch_tie
+
+theorem power_inverse_eq (s : PowerLawStretch ℝ) : s.inverse = ⟨1 / s.power⟩ := by
+  unfold PowerLawStretch.inverse
+  congr 1 <;> stretch_tie
+
+theorem log_inverse_eq (s : LogarithmicStretch ℝ) : s.inverse = (⟨s.a⟩ : InverseLogarithmicStretch ℝ) := by
+  unfold LogarithmicStretch.inverse
+  first | rfl | (congr 1 <;> stretch_tie)
+
+theorem invlog_inverse_eq (s : InverseLogarithmicStretch ℝ) : s.inverse = (⟨s.a⟩ : LogarithmicStretch ℝ) := by
+  unfold InverseLogarithmicStretch.inverse
+  first | rfl | (congr 1 <;> stretch_tie)
+
+theorem asinh_inverse_eq (s : InverseHyperbolicSineStretch ℝ) :
+    s.inverse = (⟨1 / Real.arsinh (1 / s.a)⟩ : HyperbolicSineStretch ℝ) := by
+  unfold InverseHyperbolicSineStretch.inverse
+  congr 1 <;> stretch_tie
+
+theorem sinh_inverse_eq (s : HyperbolicSineStretch ℝ) :
+    s.inverse = (⟨1 / Real.sinh (1 / s.a)⟩ : InverseHyperbolicSineStretch ℝ) := by
+  unfold HyperbolicSineStretch.inverse
+  congr 1 <;> stretch_tie
+
+theorem linear_valid (s : LinearStretch ℝ) : s.valid = true := by
+  unfold LinearStretch.valid; first | rfl | stretch_tie
+
+theorem power_valid_iff (s : PowerLawStretch ℝ) : s.valid = true ↔ 0 < s.power := by
+  unfold PowerLawStretch.valid; stretch_tie
+
+theorem log_valid_iff (s : LogarithmicStretch ℝ) : s.valid = true ↔ 0 < s.a := by
+  unfold LogarithmicStretch.valid; stretch_tie
+
+theorem invlog_valid_iff (s : InverseLogarithmicStretch ℝ) : s.valid = true ↔ 0 < s.a := by
+  unfold InverseLogarithmicStretch.valid; stretch_tie
+
+theorem asinh_valid_iff (s : InverseHyperbolicSineStretch ℝ) : s.valid = true ↔ 0 < s.a := by
+  unfold InverseHyperbolicSineStretch.valid; stretch_tie
+
+theorem sinh_valid_iff (s : HyperbolicSineStretch ℝ) : s.valid = true ↔ 0 < s.a := by
+  unfold HyperbolicSineStretch.valid; stretch_tie
+
+theorem linear_default_eq : (LinearStretch.default : LinearStretch ℝ) = ⟨1, 0⟩ := by
+  unfold LinearStretch.default
+  congr 1 <;> stretch_tie
 
 end QuantemModel.NormLemmas
